@@ -350,6 +350,9 @@ class Gen:
         if k < 0.1:
             return ("lit", r.choice(["t", "uv", "1", " w ", "é"]))
         if k < 0.2:
+            vs = [n for n, t in env.items() if not n.startswith("#") and t in ("str", "num", "bool", "anyparam", "rtf")]
+            if vs and r.random() < 0.3:
+                return ("value-of", fn("string", ("var", r.choice(vs))))     # a plain reference to a visible binding
             return ("value-of", self.g_any(env, 2))
         if k < 0.24:
             return ("text", r.choice([" ", "tx", "\n"]))
@@ -422,8 +425,10 @@ class Gen:
                 out.append((nme, vd))
         if r.random() < 0.15:
             out.append(("unused", ("select", lit("u"))))
-        if "K-C01-1" in OPEN_CLASSES and r.random() < 0.3:
-            out.append((r.choice(["g1", "g2", "g3"]), ("select", lit("wp"))))
+        if "K-C01-1" in OPEN_CLASSES and r.random() < 0.5:
+            # a with-param named like a top-level variable; the invoked template may or may not declare it
+            # (11.6: when it does not, the parameter is ignored and $name is the top-level binding)
+            out.append((r.choice(["g1", "g2", "g3"]), ("select", lit("wp" + str(r.randrange(9))))))
         return out
 
     def apply(self, cx, env, d):
@@ -453,6 +458,11 @@ class Gen:
             elif r.random() < 0.7:
                 vd, _ = self.vdef(dict(cx, noapply=True), env, d - 1, ty=r.choice(["num", "str", "rtf"]))
                 wps.append((p, vd))
+        if r.random() < 0.3:
+            # parameters the called template does not declare (ignored, 11.6)
+            extra = [n for n in ["pa", "pb", "pc"] + (["g1", "g2", "g3"] if "K-C01-1" in OPEN_CLASSES else []) if n not in params]
+            if extra:
+                wps.append((r.choice(extra), ("select", lit("xp" + str(r.randrange(9))))))
         r.shuffle(wps)
         return ("call", name, wps)
 
@@ -1063,6 +1073,8 @@ class VarsGen:
                     continue
                 name, params = r.choice(cands)
                 wps = [(n, self.value(vis)) for n in r.sample(["pa", "pb", "pc"], r.choice([0, 1, 2, 3]))]
+                if "K-C01-1" in OPEN_CLASSES and r.random() < 0.4:
+                    wps.append((r.choice(["g1", "g2"]), self.value(vis)))
                 r.shuffle(wps)
                 out.append(("call", name, wps))
         return out
